@@ -357,7 +357,7 @@ func (p *printer) writeCommentPrefix(pos, next token.Position, prev *ast.Comment
 		return
 	}
 
-	if pos.Line == p.last.Line && (prev == nil || prev.Text[1] != '/') {
+	if pos.Line == p.last.Line && (prev == nil || secondByte(prev.Text) != '/') {
 		// comment on the same line as last item:
 		// separate with at least one separator
 		hasSep := false
@@ -455,7 +455,7 @@ func (p *printer) writeCommentPrefix(pos, next token.Position, prev *ast.Comment
 
 		// make sure there is at least one line break
 		// if the previous comment was a line comment
-		if n == 0 && prev != nil && prev.Text[1] == '/' {
+		if n == 0 && prev != nil && secondByte(prev.Text) == '/' {
 			n = 1
 		}
 
@@ -760,7 +760,7 @@ func (p *printer) intersperseComments(next token.Position, tok token.Token) (wro
 		// use that information to decide more directly.
 		needsLinebreak := false
 		if p.mode&noExtraBlank == 0 &&
-			last.Text[1] == '*' && p.lineFor(last.Pos()) == next.Line &&
+			secondByte(last.Text) == '*' && p.lineFor(last.Pos()) == next.Line &&
 			tok != token.COMMA &&
 			(tok != token.RPAREN || p.prevOpen == token.LPAREN) &&
 			(tok != token.RBRACK || p.prevOpen == token.LBRACK) {
@@ -772,7 +772,7 @@ func (p *printer) intersperseComments(next token.Position, tok token.Token) (wro
 		}
 		// Ensure that there is a line break after a //-style comment,
 		// before EOF, and before a closing '}' unless explicitly disabled.
-		if last.Text[1] == '/' ||
+		if secondByte(last.Text) == '/' ||
 			tok == token.EOF ||
 			tok == token.RBRACE && p.mode&noExtraLinebreak == 0 {
 			needsLinebreak = true
@@ -1352,4 +1352,13 @@ func (cfg *Config) Fprint(output io.Writer, fset *token.FileSet, node interface{
 // use format.Node (package wa-lang.org/wa/internal/format) for output that matches gofmt.
 func Fprint(output io.Writer, fset *token.FileSet, node interface{}) error {
 	return (&Config{Tabwidth: 8}).Fprint(output, fset, node)
+}
+
+// secondByte returns text[1], the byte that tells a //-style from a /*-style comment,
+// or 0 for a one-character comment (a lone "#").
+func secondByte(text string) byte {
+	if len(text) > 1 {
+		return text[1]
+	}
+	return 0
 }
